@@ -314,3 +314,22 @@ func writeOut(path string, o *Out) error {
 	}
 	return os.WriteFile(path, b, 0o644)
 }
+
+// importObligations runs another property's rule function into a scratch result and re-emits, under rule `to`, its
+// obligations of rule `from` that the filter accepts: one analysis, registered for every property whose statement rests on it.
+func (w *World) importObligations(run func(*World), from, to string, filter func(Obl) bool) int {
+	saved := w.out
+	tmp := &Out{Floors: map[string]int{}, Stats: map[string]int{}}
+	w.out = tmp
+	run(w)
+	w.out = saved
+	n := 0
+	for _, o := range tmp.Obligations {
+		if o.Rule == from && o.Key != "floor" && (filter == nil || filter(o)) {
+			o.Rule = to
+			w.out.Obligations = append(w.out.Obligations, o)
+			n++
+		}
+	}
+	return n
+}
